@@ -55,6 +55,35 @@ func nearMisses(v string) []fieldVal {
 	out = append(out, fieldVal{kind: "prefix", val: v[:len(v)-3]})
 	out = append(out, fieldVal{kind: "suffix", val: v + "x"})
 	out = append(out, fieldVal{kind: "otherhost", val: strings.Replace(v, "example", "exampel", 1)})
+	if i := strings.Index(v, "://"); i > 0 {
+		// spellings that URL libraries consider the same URL (or re-print as it): equality means the same string
+		rest := v[i+3:]
+		host, path := rest, ""
+		if j := strings.IndexByte(rest, '/'); j >= 0 {
+			host, path = rest[:j], rest[j:]
+		}
+		out = append(out, fieldVal{kind: "scheme-uppercase", val: strings.ToUpper(v[:i]) + v[i:]})
+		out = append(out, fieldVal{kind: "empty-fragment", val: v + "#"})
+		out = append(out, fieldVal{kind: "fragment", val: v + "#x"})
+		out = append(out, fieldVal{kind: "host-uppercase", val: v[:i+3] + strings.ToUpper(host) + path})
+		out = append(out, fieldVal{kind: "userinfo", val: v[:i+3] + "user@" + rest})
+		if !strings.Contains(host, ":") {
+			port := ":443"
+			if v[:i] == "http" {
+				port = ":80"
+			}
+			out = append(out, fieldVal{kind: "default-port", val: v[:i+3] + host + port + path})
+			out = append(out, fieldVal{kind: "trailing-dot-host", val: v[:i+3] + host + "." + path})
+		}
+		if len(path) > 2 {
+			out = append(out, fieldVal{kind: "dot-segment", val: v[:i+3] + host + "/." + path})
+			out = append(out, fieldVal{kind: "pct-encoded-letter", val: v[:i+3] + host + path[:len(path)-1] + fmt.Sprintf("%%%02X", path[len(path)-1])})
+			out = append(out, fieldVal{kind: "double-slash", val: v[:i+3] + host + "/" + path})
+		}
+		if !strings.Contains(v, "?") {
+			out = append(out, fieldVal{kind: "empty-query", val: v + "?"})
+		}
+	}
 	out = append(out, fieldVal{kind: "space", val: v + " "})
 	out = append(out, fieldVal{kind: "empty", val: ""})
 	out = append(out, fieldVal{kind: "absent", absent: true})
@@ -83,7 +112,8 @@ type c03Case struct {
 	entityID   bool
 	validator  int // 0 none, 1 returns nil, 2 returns error
 	curDiffers bool
-	allowIDP   bool  // AllowIDPInitiated: waives the request-ID rule, nothing else
+	acs        string // the SP's ACS URL in this case (the one SP object lives through all cases and is reconfigured in place)
+	allowIDP   bool   // AllowIDPInitiated: waives the request-ID rule, nothing else
 	methods    []int // confirmation Method per confirmation (index into confMethods)
 	curForm    int   // 0 absolute received-at URL, 1 origin-form (path only, as net/http servers see it), 2 origin-form with query
 	entry      int   // 0 xml 1 post 2 artifact(signed AR) 3 artifact(unsigned AR)
@@ -120,6 +150,7 @@ func c03StatusVariants() []fieldVal {
 
 func c03Base(c *core.Ctx) c03Case {
 	k := c03Case{signedResp: c.Rng.Intn(2) == 0, entityID: c.Rng.Intn(2) == 0, curDiffers: c.Rng.Intn(3) == 0, entry: c.Rng.Intn(4)}
+	k.acs = []string{so.SPACS, so.SPACS, "https://sp.example.com/saml2/acs-b"}[c.Rng.Intn(3)]
 	if c.Rng.Intn(2) == 0 {
 		k.entry = c.Rng.Intn(2)
 	}
@@ -136,16 +167,16 @@ func c03Base(c *core.Ctx) c03Case {
 		k.respIssuer = fieldVal{kind: "absent", absent: true}
 	}
 	k.aIssuer = ok(so.IDPEntity)
-	k.recips = []fieldVal{ok(so.SPACS)}
+	k.recips = []fieldVal{ok(k.acs)}
 	if c.Rng.Intn(3) == 0 {
-		k.recips = append(k.recips, ok(so.SPACS))
+		k.recips = append(k.recips, ok(k.acs))
 	} else if c.Rng.Intn(6) == 0 {
 		k.recips = nil // an assertion without subject confirmations: no Recipient to check
 	}
 	for n := c.Rng.Intn(4); n > 0; n-- {
 		k.auds = append(k.auds, ok(c03Own(k.entityID)))
 	}
-	k.dest = ok(so.SPACS)
+	k.dest = ok(k.acs)
 	if k.curDiffers && c.Rng.Intn(2) == 0 {
 		k.dest = fieldVal{kind: "correct-cur", val: c03CurStr(k)}
 	}
@@ -178,7 +209,7 @@ func c03Deviate(c *core.Ctx, k *c03Case, field, variant int) {
 			return
 		}
 		i := c.Rng.Intn(len(k.recips))
-		k.recips[i] = pickV(nearMisses(so.SPACS))
+		k.recips[i] = pickV(append(nearMisses(k.acs), fieldVal{kind: "the-other-acs-this-sp-object-had", val: c03OtherACS(k.acs)}))
 	case 3:
 		if len(k.auds) == 0 {
 			k.auds = []fieldVal{{}}
@@ -188,11 +219,11 @@ func c03Deviate(c *core.Ctx, k *c03Case, field, variant int) {
 		if k.entityID {
 			vs = append(vs, fieldVal{kind: "metadata-url-while-entityid-set", val: so.SPMeta})
 		} else {
-			vs = append(vs, fieldVal{kind: "acs-url", val: so.SPACS})
+			vs = append(vs, fieldVal{kind: "acs-url", val: k.acs})
 		}
 		k.auds[i] = pickV(vs)
 	case 4:
-		vs := nearMisses(so.SPACS)
+		vs := append(nearMisses(k.acs), fieldVal{kind: "the-other-acs-this-sp-object-had", val: c03OtherACS(k.acs)})
 		if k.curDiffers {
 			vs = append(vs, fieldVal{kind: "correct-cur", val: c03CurStr(*k)})
 			if k.curForm > 0 { // same path (and query) as the received-at URL, on someone else's host
@@ -200,7 +231,7 @@ func c03Deviate(c *core.Ctx, k *c03Case, field, variant int) {
 				vs = append(vs, fieldVal{kind: "otherhost-same-request-uri", val: "https://sp.evil.example" + u.RequestURI()}, fieldVal{kind: "acs-host-other-scheme", val: "http://sp.example.com" + u.RequestURI()})
 			}
 		} else {
-			vs = append(vs, fieldVal{kind: "acs-with-other-query", val: so.SPACS + "?x=1"})
+			vs = append(vs, fieldVal{kind: "acs-with-other-query", val: k.acs + "?x=1"})
 		}
 		k.dest = pickV(vs)
 	case 5:
@@ -282,10 +313,17 @@ func setOrRemoveText(parent *etree.Element, path string, f fieldVal) {
 func c03Run(c *core.Ctx, o *so.Oracle, k c03Case) {
 	o.Reset()
 	c.Journal("C03 " + k.String())
-	sp := so.NewSP("meta-one-signing", fx.K("sp_rsa2048"))
+	// one SP object per process, reconfigured in place for every case: what it did for earlier cases must not matter
+	if c03LiveSP == nil {
+		c03LiveSP = so.NewSP("meta-one-signing", fx.K("sp_rsa2048"))
+	}
+	sp := c03LiveSP
+	sp.EntityID = ""
 	if k.entityID {
 		sp.EntityID = c03EntityID
 	}
+	sp.AcsURL = mustURL(k.acs)
+	sp.ValidateAudienceRestriction = nil
 	sp.AllowIDPInitiated = k.allowIDP
 	validatorCalls := 0
 	switch k.validator {
@@ -514,16 +552,25 @@ func keyChar(r rune) rune {
 
 // c03Cur is the URL at which the response is received in case k.
 func c03Cur(k c03Case) url.URL {
-	acs := mustURL(so.SPACS)
+	acs := mustURL(k.acs)
 	switch {
 	case k.curForm == 1:
 		return url.URL{Path: acs.Path}
 	case k.curForm == 2:
 		return url.URL{Path: acs.Path, RawQuery: "x=1"}
 	case k.curDiffers:
-		return mustURL(so.SPACS + "?x=1")
+		return mustURL(k.acs + "?x=1")
 	}
 	return acs
 }
 
 func c03CurStr(k c03Case) string { u := c03Cur(k); return u.String() }
+
+var c03LiveSP *saml.ServiceProvider
+
+func c03OtherACS(acs string) string {
+	if acs == so.SPACS {
+		return "https://sp.example.com/saml2/acs-b"
+	}
+	return so.SPACS
+}
